@@ -15,7 +15,7 @@
 (* and the driver feeds all orders of the multiset to every Pareto routine *)
 (* of the library.                                                         *)
 (***************************************************************************)
-EXTENDS Naturals, Sequences, FiniteSets, TLC, Json
+EXTENDS Naturals, Sequences, FiniteSets, TLC, Json, IOUtils
 CONSTANTS D, V, MaxN
 Points == [1..D -> 0..(V-1)]
 VARIABLE ps
@@ -38,6 +38,16 @@ Against == [m \in 0..(Pow2(Len(ps)) - 1) |->
                weak   |-> [i \in DOMAIN ps |-> InMask(m, i) /\ ~\E j \in DOMAIN ps : ~InMask(m, j) /\ GeqAll(ps[j], ps[i])]]]
 
 Dump == PrintT(ToJson([ps |-> ps, front |-> Front, rank |-> Rank, against |-> Against]))
+
+\* ---- large point sets (the accelerated routines shard / recurse only on sets far larger than TLC can enumerate): the
+\* driver draws them (seeded; grids with many ties, a late sole dominator, ascending chains), runs the routines and TLC
+\* judges every answer against the same definition.  One observation: [pts: Seq(Seq(Nat)), got: Seq(BOOLEAN)].
+LargeObs == JsonDeserialize(IOEnv.TRACE_FILE)
+DomL(p, q) == (\A i \in DOMAIN p : p[i] >= q[i]) /\ (\E i \in DOMAIN p : p[i] > q[i])
+FrontOf(pts) == [i \in DOMAIN pts |-> ~\E j \in DOMAIN pts : DomL(pts[j], pts[i])]
+JudgeLarge == \A k \in DOMAIN LargeObs : PrintT(<<"PLV", k, IF LargeObs[k].got = FrontOf(LargeObs[k].pts) THEN "ok" ELSE "wrong_front">>)
+JInit == ps = <<>> /\ JudgeLarge
+JSpec == JInit /\ [][FALSE]_ps
 
 \* sanity properties of the definition itself (checked by TLC on every multiset)
 FrontNonEmpty == ps # <<>> => \E i \in DOMAIN ps : Front[i]
